@@ -104,7 +104,7 @@ def _validate(trace, shards, timeout=2400):
     return n, bad
 
 
-def _report(rep, bad, what, counters):
+def _report(rep, bad, what, counters, stage=None):
     for rec, v in bad:
         if v["v"] == "skip":
             counters["skipped"] += 1
@@ -114,10 +114,14 @@ def _report(rep, bad, what, counters):
         key = {"why": v["why"], "m": rec["m"], "script": "; ".join(script),
                "cmd": script[min(at, len(script)) - 1] if script else "", "outcome": rec["outcome"],
                "msg": rec.get("msg", "")[:200]}
+        if stage:
+            key["stage"] = stage
         detail = (f"{what}: run not allowed by spec/JobCtl.tla at command {at} ({v['why']}); "
                   f"monitor={rec['m']} script: {'; '.join(script)}")
-        rep.violation(key, detail, {"m": rec["m"], "script": rec["script"], "sched": rec.get("sched", {}),
-                                    "record": rec, "verdict": v})
+        robj = {"m": rec["m"], "script": rec["script"], "sched": rec.get("sched", {}), "record": rec, "verdict": v}
+        if stage:
+            robj["stage"] = stage
+        rep.violation(key, detail, robj)
 
 
 def run(tier):
@@ -230,6 +234,57 @@ def run(tier):
     return rc
 
 
+STAGES = {
+    # reduced slices run inside other checks: cfg, harness exploration parameters per tier
+    "c12": {"cfg": "MC_JobCtl_c12.cfg",
+            "quick": {"dfs_depth": 6, "max_dfs": 6, "random": 1, "shards": 8},
+            "thorough": {"dfs_depth": 8, "max_dfs": 24, "random": 4, "shards": 8}},
+}
+
+
+def run_stage(tier, rep, budget="c12"):
+    """A reduced slice of G02 run as a stage of another check (C12: `%%`, `%+`, `%-`, `%n`
+    and `$!` designate the documented jobs *through the built-ins*): the TLC model check of
+    JobCtl over <= 3 jobs with start/fgstart/rel/settle/jobs/wait/bg/fg/kill and
+    `set -m`/`set +m` (jobs that are not job-controlled), every (state, command) pair run on
+    the real shell under explored schedules and validated by Trace_JobCtl.  Violations go
+    to `rep` (keys and replay objects carry "stage": "g02"); returns coverage numbers."""
+    t0 = time.time()
+    st = STAGES[budget]
+    t = st[tier]
+    cfg = st["cfg"]
+    wd = vlib.workdir(PID + "-stage-" + budget)
+    vlib.build_harness(PKG)
+    gen = os.path.join(wd, cfg + ".gen.ndjson")
+    r = vlib.tlc("JobCtl", cfg, workers=8, json_out=gen, timeout=1200)
+    vlib.tlc_must_pass(r, f"model check {cfg}")
+    vlib.log(f"[g02-stage] {cfg}: {r.distinct} distinct states, {r.generated} generated, depth {r.depth}, {r.wall:.1f}s")
+    trace = os.path.join(wd, cfg + ".trace.ndjson")
+    s = _explore(gen, trace, t)
+    counters = {"skipped": 0}
+    n, bad = _validate(trace, t["shards"])
+    _report(rep, bad, f"job-control built-ins ({cfg})", counters, stage="g02")
+    rejected = len(bad) - counters["skipped"]
+    kinds = {}
+    bang_moves = 0
+    with open(trace) as f:
+        for line in f:
+            rec = json.loads(line)
+            if rec["script"] and len(rec["steps"]) == len(rec["script"]):
+                k = rec["script"][-1]["k"] + (" (error)" if rec["steps"][-1]["err"] else " (ok)")
+                kinds[k] = kinds.get(k, 0) + 1
+                if len(rec["steps"]) > 1 and rec["steps"][-1]["bang"] != rec["steps"][-2]["bang"]:
+                    bang_moves += 1
+    vlib.log(f"[g02-stage] {s['scripts']} scripts, {s['runs']} runs, {n} records validated against JobCtl, "
+             f"{rejected} rejected, {counters['skipped']} not judged, {time.time() - t0:.1f}s")
+    os.remove(gen)
+    os.remove(trace)
+    return {"config": cfg, "states": r.distinct, "transitions": r.generated, "scripts": s["scripts"], "runs": s["runs"],
+            "records_validated": n, "records_not_judged": counters["skipped"], "rejected": rejected,
+            "records_by_last_command_and_result": kinds, "records_where_last_command_changes_bang": bang_moves,
+            "max_scheduling_choice_points": s["max_choice_points"], "wall_s": round(time.time() - t0, 1)}
+
+
 def replay(path):
     with open(path) as f:
         obj = json.load(f)
@@ -253,7 +308,7 @@ def replay(path):
     bad = [b for b in bad if b[1]["v"] != "skip"]
     if bad:
         print(f"rejected: {bad[0][1]}")
-        print(f"VIOLATION property={PID} replay={path}")
+        print(f"VIOLATION property={obj.get('property', PID)} replay={path}")
         return 1
     print("accepted")
     return 0
